@@ -1025,6 +1025,7 @@ func (c *Client) openWS(query string, extra ...map[string]string) (streamConn, *
 	}
 	sconn.in.onFault = c.w.fault
 	sconn.preemptibleWrites = true
+	sconn.writeDelay = time.Duration(c.sp.WriteDelayMs) * time.Millisecond
 	if c.sp.RecvWindow > 0 {
 		// (the window bites once the client has gone silent and stopped reading, see plan())
 		sconn.out.onFault = c.w.fault
